@@ -58,7 +58,11 @@ def proof_items():
     from contracts import misc
     from vf.driver import ProofItem
     from contracts import map_run, pipeline_call
+    from contracts import small
     return [ProofItem(misc.compute_cache_key, gen=_cck_gen),
+            # what Pipeline._run leaves behind after computing: the result resident under its key
+            ProofItem(small.update_cache, gen=small.uc_gen,
+                      registry=lambda: {**{c.short: c for c in small.CACHE_UPDATE}, **{c.name: c for c in small.CACHE_UPDATE}}),
             # a resident entry is used instead of executing: entered like a computed result, marked as "from cache"
             ProofItem(pipeline_call.get_result_from_cache, gen=pipeline_call.grc_gen),
             # the cache of a map run: a hit returns the stored value and runs nothing; a miss runs the function exactly
